@@ -34,6 +34,10 @@ def regen(ctx):
          # the remaining writers of Set are all Apply; the id counter
          R + "set_impl.go:set.Add", R + "set_impl.go:set.AddAll", R + "set_impl.go:set.Delete", R + "set_impl.go:set.DeleteAll",
          R + "utils.go:uniqueID.Next",
+         # a list element is allocated per insert (never handed to a second subscription); the remaining subscription
+         # variant of Set, the remaining readers / writers of the anchored files
+         "ds/list_impl.go:list.insertValue", R + "set_impl.go:readableSet.WithElements", R + "set_impl.go:set.Decode",
+         R + "event_impl.go:event.WasTriggered", R + "variable_impl.go:readableVariable.LogUpdates",
          # type facts: which mutex a selector resolves to, and the width of the update id
          R + "variable_impl.go:type=variable", R + "variable_impl.go:type=readableVariable",
          R + "set_impl.go:type=set", R + "set_impl.go:type=readableSet", R + "set_impl.go:type=derivedSet",
@@ -78,7 +82,11 @@ SPEC = {
                  "C13_skeleton_list_inner_Remove", "C13_skeleton_list_inner_remove", "C13_skeleton_list_inner_PushBack",
                  "C13_skeleton_list_inner_insert", "C13_skeleton_list_inner_Front", "C13_skeleton_listElement_Next",
                  "C13_skeleton_type_list", "C13_skeleton_type_listElement", "C13_skeleton_set_Add", "C13_skeleton_set_AddAll",
-                 "C13_skeleton_set_Delete", "C13_skeleton_set_DeleteAll", "C13_skeleton_uniqueID_Next"],
+                 "C13_skeleton_set_Delete", "C13_skeleton_set_DeleteAll", "C13_skeleton_uniqueID_Next",
+                 "C13_set_notes_true_difference", "C13_repeated_unsubscribe_noop", "C13_late_unsubscribe_example",
+                 "C13_withelements_active", "C13_withelements_alternates", "C13_withelements_closed_after_teardown",
+                 "C13_withelements_in_protocol", "C13_skeleton_list_inner_insertValue", "C13_skeleton_set_WithElements",
+                 "C13_skeleton_set_Decode", "C13_skeleton_event_WasTriggered", "C13_skeleton_variable_LogUpdates"],
     "trusted_base": [
         "hand-written protocol model Hive/Model/Reactive.lean (+ ReactiveInst.lean) of ds/reactive variable_impl.go / set_impl.go / "
         "event_impl.go / utils.go, tied by (a) regenerated synchronisation skeletons stated as theorems, (b) differential execution of "
